@@ -613,6 +613,18 @@ func (e *kindEngine) guard(cond ssa.Value, v ssa.Value, depth int) (kset, kset, 
 				}
 			}
 		}
+		// a predicate of the module written in terms of other predicates (isPlainStruct(v) =
+		// IsStruct(v) && !IsCallable(v)): what its own guards establish for the parameter on the
+		// paths that return true (false)
+		if callee := x.Call.StaticCallee(); callee != nil && len(callee.Blocks) > 0 && e.g.InSc[callee] && kindPredicates[shortFn(callee)] == 0 && !inexactPredicates[shortFn(callee)] {
+			for i, a := range x.Call.Args {
+				if a == v && i < len(callee.Params) {
+					if t, f, ok := e.wrapperGuard(callee, i, depth); ok {
+						return t, f, true
+					}
+				}
+			}
+		}
 		if callee := x.Call.StaticCallee(); callee != nil && len(x.Call.Args) >= 1 && x.Call.Args[0] == v {
 			if inexactPredicates[shortFn(callee)] {
 				return kValid, kAny, true
@@ -887,6 +899,15 @@ func (e *kindEngine) guardR(cond ssa.Value, x ssa.Value, depth int) (kset, kset,
 				return kValid, kInvalid, true
 			}
 			return kValid, kValid, true
+		}
+		if callee := c.Call.StaticCallee(); callee != nil && len(callee.Blocks) > 0 && e.g.InSc[callee] && kindPredicates[shortFn(callee)] == 0 && !inexactPredicates[shortFn(callee)] {
+			for i, a := range c.Call.Args {
+				if a == x && i < len(callee.Params) {
+					if t, f, ok := e.wrapperGuardR(callee, i, depth); ok {
+						return t, f, true
+					}
+				}
+			}
 		}
 		if callee := c.Call.StaticCallee(); callee != nil && len(c.Call.Args) >= 1 && c.Call.Args[0] == x {
 			if inexactPredicates[shortFn(callee)] {
@@ -1193,4 +1214,120 @@ func kindValidArgs(call *ssa.Call) []kindValidArg {
 func isReflectKindType(t types.Type) bool {
 	n, ok := t.(*types.Named)
 	return ok && n.Obj().Pkg() != nil && n.Obj().Pkg().Path() == "reflect" && n.Obj().Name() == "Kind"
+}
+
+// wrapperGuard: g returns a bool and takes a reflect.Value as parameter idx. The kinds the
+// parameter can have where g returns true, and where it returns false, are read off g's own
+// guards (union over the return points; a result that is not a constant is split by the guard
+// it is itself).
+func (e *kindEngine) wrapperGuard(g *ssa.Function, idx int, depth int) (kset, kset, bool) {
+	if depth > 1 || !isReflectValue(g.Params[idx].Type()) {
+		return 0, 0, false
+	}
+	res := g.Signature.Results()
+	if res.Len() != 1 {
+		return 0, 0, false
+	}
+	if b, ok := res.At(0).Type().Underlying().(*types.Basic); !ok || b.Kind() != types.Bool {
+		return 0, 0, false
+	}
+	p := g.Params[idx]
+	var t, f kset
+	constBool := func(v ssa.Value) (bool, bool) {
+		k, ok := v.(*ssa.Const)
+		if !ok || k.Value == nil || k.Value.Kind() != constant.Bool {
+			return false, false
+		}
+		return constant.BoolVal(k.Value), true
+	}
+	add := func(val ssa.Value, here kset) {
+		if bv, isK := constBool(val); isK {
+			if bv {
+				t |= here
+			} else {
+				f |= here
+			}
+			return
+		}
+		if tt, ff, ok := e.guard(val, p, depth+2); ok {
+			t |= here & tt
+			f |= here & ff
+			return
+		}
+		t |= here
+		f |= here
+	}
+	n := 0
+	for _, b := range g.Blocks {
+		ret, ok := b.Instrs[len(b.Instrs)-1].(*ssa.Return)
+		if !ok {
+			continue
+		}
+		n++
+		v := ret.Results[0]
+		if phi, isPhi := v.(*ssa.Phi); isPhi && phi.Block() == b {
+			for i, ev := range phi.Edges {
+				add(ev, e.atEdge(p, b.Preds[i], b))
+			}
+			continue
+		}
+		add(v, e.at(p, b))
+	}
+	if n == 0 {
+		return 0, 0, false
+	}
+	return t, f, true
+}
+
+// wrapperGuardR: as wrapperGuard, for the kinds of jtypes.Resolve(parameter).
+func (e *kindEngine) wrapperGuardR(g *ssa.Function, idx int, depth int) (kset, kset, bool) {
+	if depth > 1 || !isReflectValue(g.Params[idx].Type()) {
+		return 0, 0, false
+	}
+	res := g.Signature.Results()
+	if res.Len() != 1 {
+		return 0, 0, false
+	}
+	if b, ok := res.At(0).Type().Underlying().(*types.Basic); !ok || b.Kind() != types.Bool {
+		return 0, 0, false
+	}
+	p := g.Params[idx]
+	var t, f kset
+	add := func(val ssa.Value, here kset) {
+		if k, ok := val.(*ssa.Const); ok && k.Value != nil && k.Value.Kind() == constant.Bool {
+			if constant.BoolVal(k.Value) {
+				t |= here
+			} else {
+				f |= here
+			}
+			return
+		}
+		if tt, ff, ok := e.guardR(val, p, depth+2); ok {
+			t |= here & tt
+			f |= here & ff
+			return
+		}
+		t |= here
+		f |= here
+	}
+	n := 0
+	for _, b := range g.Blocks {
+		ret, ok := b.Instrs[len(b.Instrs)-1].(*ssa.Return)
+		if !ok {
+			continue
+		}
+		n++
+		v := ret.Results[0]
+		if phi, isPhi := v.(*ssa.Phi); isPhi && phi.Block() == b {
+			for i, ev := range phi.Edges {
+				add(ev, e.resolvedAtEdge(p, b.Preds[i], b))
+			}
+			continue
+		}
+		add(v, e.resolvedAt(p, b))
+	}
+	if n == 0 {
+		return 0, 0, false
+	}
+	return t, f, true
 }
